@@ -366,7 +366,9 @@ def gen_migrated(rng, complete=None):
         st = s["status"]
         st.update(replicas=len(api["pods"]), ready=len(api["pods"]), current=len(api["pods"]), updated=len(api["pods"]),
                   currentRevision=new, updateRevision=new)
-    s["status"]["collisionCount"] = 0
+    # the built-in set may have met a name collision earlier: its collision count is then ahead of the count hashed into the
+    # name / hash label of the revision that matches the template (recognition must go by the recorded data, not by the label)
+    s["status"]["collisionCount"] = 1 if rng.random() < 0.3 else 0
     api["claims"] = sorted({v["claim"] for p in api["pods"] for v in p["vols"] if v["claim"]})
     cache = copy.deepcopy(api)
     cache["revs"] = []
